@@ -5,6 +5,13 @@ CFG = {
     "props_module": "RpmVerif.Props.C08",
     "required_theorems": ["RpmVerif.C08.writeAllH_hashed_eq_accepted", "RpmVerif.C08.runH_hashed_eq_accepted", "RpmVerif.C08.alt_digest",
                           "RpmVerif.C08.build_digests", "RpmVerif.C08.sig_header_sha256", "RpmVerif.C08.file_digests",
+                          "RpmVerif.C08.sha_writer_write", "RpmVerif.C08.prepare_archive_hashed", "RpmVerif.C08.prepare_digests_spec",
+                          "RpmVerif.C08.prepare_digests_total", "RpmVerif.C08.prepare_digests_none",
+                          "RpmVerif.C08.file_digest_is_content_digest", "RpmVerif.C08.file_digests_of_contents",
+                          "RpmVerif.C08.buildFilesC_fst", "RpmVerif.C08.insertFileC_keeps_entries",
+                          "RpmVerif.C08.clear_header_digest_fresh", "RpmVerif.C08.sign_header_digest_fresh",
+                          "RpmVerif.Pipeline.build_with_spec", "RpmVerif.Pipeline.build_with_digests",
+                          "RpmVerif.Pipeline.built_item_digests", "RpmVerif.Pipeline.history_header_digest_fresh",
                           "RpmVerif.Pipeline.build_verifies_digests", "RpmVerif.Pipeline.build_payload_digest_ok",
                           "RpmVerif.Pipeline.build_reparse_verifies", "RpmVerif.Pipeline.build_offsets",
                           "RpmVerif.Pipeline.build_files_roundtrip", "RpmVerif.Pipeline.build_valid",
@@ -14,8 +21,18 @@ CFG = {
             "digest vs SHA-256 of the bytes the sink accepted; (b) real builds: every compressor × file sizes 0 / 1 / 4 KiB / 70 kB / 300 kB (3 MB in thorough, "
             "one 3 MB gzip case in quick) × compressible and incompressible content, plus C06-style random configurations: recorded PAYLOADDIGEST, "
             "PAYLOADDIGESTALT, signature-header SHA256 (also after clear_signatures) and per-file digests against digests recomputed with the sha2 crate over "
-            "the written bytes, the payload decompressed with the codec crates directly, and the content iterated from the payload. The model predicts the header "
-            "digest (sha256 of its own predicted header bytes). Non-trivial = build accepted / non-empty script; distinct = distinct requests.",
+            "the written bytes, the payload decompressed with the codec crates directly, and the content iterated from the payload. The model PREDICTS "
+            "PAYLOADDIGESTALT (the cpio Writer stacked on Sha256Writer stacked on an all-accepting sink, Model/ShaSink.lean, standard and large-file form, run on "
+            "the regenerated contents; Lean SHA-256), RPMTAG_FILEDIGESTS text by text (fd=), PAYLOADDIGEST for c=none, and the header digest (sha256 of its own "
+            "predicted header bytes); for the real codecs the payload digest is the harness' recomputation (only its place is predicted). Compression levels: EVERY "
+            "level of the ranges scraped from compressor.rs on this run (zstd's negative range sampled); sizes 0 / 1 / 4 KiB / 32 KiB ± 1 / 64 KiB ± 1 / 70 kB / "
+            "128 KiB ± 1 / 300 kB; lf=0 and lf at the combined size ± 1 (large-file switch through the hook). (c) sign08: Ed25519 / RSA-4096 / ECDSA-P256 through "
+            "Package::sign, sign_with_timestamp and build_and_sign, on the package value build() returned and on the re-parsed one: all recorded digests predicted, "
+            "verify_digests and verify_signature must accept, clear_signatures afterwards. (d) hist08: sign / clear / write + re-parse histories from ANY start "
+            "package (the crate's assets, hand-assembled packages without digests, built packages with a stale header digest or a replaced payload): the recorded "
+            "header digest after the history is predicted from Hdr.parsePackage + writeHeader, main header and payload bytes must be the start package's. "
+            "(e) every shaw script is also run through the stacked model (HSink) and must agree with ShaW.runH. "
+            "Non-trivial = build accepted / non-empty script; distinct = distinct requests.",
     "exhaustive": False,
     "shards": {"quick": 8, "thorough": 16},
     "shrink": False,
@@ -29,6 +46,19 @@ CFG = {
                   "Pipeline theorems (Props/Pipeline.lean) compose this with the other layers at the package build returns, for every configuration, clock value, "
                   "archive, payload and hash function: it passes verify_digests (build_verifies_digests, no hypothesis), for valid configurations it re-parses to "
                   "itself and still passes (build_reparse_verifies), its offsets are the real boundaries (build_offsets), files() yields the builder's files in path "
-                  "order with their contents (build_files_roundtrip), and one summary statement bundles these with the signing histories (built_package_sound).",
+                  "order with their contents (build_files_roundtrip), and one summary statement bundles these with the signing histories (built_package_sound). "
+                  "WHICH bytes are hashed (Model/ShaSink.lean: payload::Writer over Sha256Writer over the compressor, the stack prepare_data builds; every compressor "
+                  "behaviour = response script + failing flush, every finish_compression, every hash function): sha_writer_write (one write: same outcome and "
+                  "compressor state as without the hashing layer, hasher fed exactly buf[..n]), prepare_archive_hashed (both loops + trailer: Ok or an I/O error, "
+                  "never a panic; when Ok the hasher was fed exactly the cpio archive of the files — builderArchive / builderArchiveLarge — and the compressor "
+                  "accepted exactly that), prepare_digests_spec (PAYLOADDIGESTALT = digest of that archive = the compressor's INPUT, PAYLOADDIGEST = digest of what "
+                  "finish_compression returned after exactly that input), Pipeline.build_with_spec / build_with_digests (the package so built IS Bld.build at that "
+                  "archive and payload, so every Pipeline theorem applies with archive := the cpio of the files). File digests: file_digest_is_content_digest (after "
+                  "ANY sequence of with_file calls every map entry carries the digest and the length of the content stored IN THE SAME ENTRY — the bytes archived "
+                  "under its path; keep-first or_insert: insertFileC_keeps_entries; the content-free projection is the builder state of the header theorems: "
+                  "buildFilesC_fst), file_digests_of_contents, and end to end Pipeline.built_item_digests (every item (k, content) that files() yields from the built "
+                  "package has FILEDIGESTS[k] = digest(content) and recorded size = |content|). After sign / clear from ANY start: clear_header_digest_fresh / "
+                  "sign_header_digest_fresh (any package value, no hypothesis on it), Pipeline.history_header_digest_fresh (any parsed start package, any history that "
+                  "begins with a sign or clear: no PayloadDigestOk, nothing about the start's own signature header).",
     "level_note": "Trusted: Lean kernel; sha2 / codec crates as oracle; model fidelity as exercised.",
 }
